@@ -51,6 +51,7 @@ class TimingProbe(Probe):
             nodes = graph_nodes(st)
             ids = {id(o): o for o in nodes}
             depth = {}
+            cyclic = []
 
             def dep(o, guard=0):
                 if id(o) in depth:
@@ -68,11 +69,17 @@ class TimingProbe(Probe):
                         try:
                             ref = link.reference_node
                         except RecursionError:
+                            # a cyclic relation structure (findings R14 / R3): "the member that ends latest" does not exist, the
+                            # independent depth function has nothing to say about this graph — the placement clause is skipped
+                            # for this add (the relation equations and the correspondence with the model are still checked)
+                            cyclic.append(True)
                             ref = None
                 d = 1 + dep(ref, guard + 1) if (ref is not None and id(ref) in ids) else 1
                 depth[id(o)] = d
                 return d
             self.pre = (nodes, {id(o): dep(o) for o in nodes})
+            if cyclic:
+                self.pre = None
             # the explicit relation the new operation is created with: (reference object | None, relation type)
             self.expect = None
             rel = cmd[9]
@@ -107,6 +114,23 @@ class TimingProbe(Probe):
                         self.placed_under[id(o)] = (o, o.relation_link.reference_node)
                     except RecursionError:
                         pass
+        if cmd[0] in ('copy', 'sub', 'apply', 'flatten', 'adopt'):
+            # objects the program did not add itself (copies, unrolled repetitions) are hung NOW, under the member of their group
+            # relation that ends latest now: remembered like the operations the program adds (false alarm of the thorough soak,
+            # seed 4: a copy made before a duration change; the fallback "latest member at the time of the NEXT add" was stale)
+            def remember(struct, depth=0):
+                if depth > 12:
+                    return
+                for o in graph_nodes(struct):
+                    if id(o) not in self.placed_under and isinstance(o.relation_link, a.MultiRelationLink):
+                        try:
+                            self.placed_under[id(o)] = (o, o.relation_link.reference_node)
+                        except RecursionError:
+                            pass
+                    if isinstance(o, a.CircuitCompositeOperation):
+                        remember(o, depth + 1)
+            for c in run.circs:
+                remember(c.circuit_structure)
         if cmd[0] == 'op' and self.pre is not None:
             nodes, depth = self.pre
             op = run.handles[-1]
